@@ -136,6 +136,18 @@ class LeanSide:
         return out
 
     def run(self):
+        # one check at a time regenerates the source-derived files and builds: checks running in parallel share this
+        # project, and a rebuild (after a source change) must not pull the driver from under another check
+        import fcntl
+        os.makedirs(os.path.join(LEAN_DIR, ".lake"), exist_ok=True)
+        with open(os.path.join(LEAN_DIR, ".lake", "verif_build.lock"), "w") as lk:
+            fcntl.flock(lk, fcntl.LOCK_EX)
+            try:
+                return self._run_locked()
+            finally:
+                fcntl.flock(lk, fcntl.LOCK_UN)
+
+    def _run_locked(self):
         t0 = time.time()
         res = {"ok": True, "failures": [], "constants": {}, "constants_unavailable": [],
                "constants_changed": {}}
@@ -241,10 +253,22 @@ class Driver:
     def run(self, lines):
         if not lines:
             return []
+        # another check may be relinking the driver right now (source-derived files changed): wait for it
+        for _ in range(180):
+            if self.available():
+                break
+            time.sleep(1)
         if not self.available():
             raise RuntimeError("model driver not built")
-        p = subprocess.run([self.exe], input="\n".join(lines) + "\n", capture_output=True,
-                           text=True, timeout=1800)
+        for attempt in range(3):
+            try:
+                p = subprocess.run([self.exe], input="\n".join(lines) + "\n", capture_output=True,
+                                   text=True, timeout=1800)
+                break
+            except OSError:                  # "text file busy" / replaced while starting
+                if attempt == 2:
+                    raise
+                time.sleep(5)
         if p.returncode != 0:
             raise RuntimeError("driver failed: " + p.stderr[:500])
         out = p.stdout.split("\n")
